@@ -101,7 +101,17 @@ func (a *OrdersAgent) Step(s *Sim) {
 				if r.IntN(2) == 0 {
 					s.SendTx(owner, "orders/cancel_spot", &tradeshieldtypes.MsgCancelSpotOrder{OwnerAddress: owner.Addr.String(), OrderId: o.OrderId})
 				} else {
-					s.SendTx(owner, "orders/cancel_spots", &tradeshieldtypes.MsgCancelSpotOrders{Creator: owner.Addr.String(), SpotOrderIds: []uint64{o.OrderId}})
+					ids := []uint64{o.OrderId}
+					for _, x := range spot { // more of the same owner's orders, sometimes one of them twice
+						if x.OwnerAddress == owner.Addr.String() && x.OrderId != o.OrderId && r.IntN(2) == 0 {
+							ids = append(ids, x.OrderId)
+						}
+					}
+					if r.IntN(4) == 0 {
+						ids = append(ids, ids[r.IntN(len(ids))])
+						s.Stats.Probe("batch_cancel_with_repeated_id_submitted")
+					}
+					s.SendTx(owner, "orders/cancel_spots", &tradeshieldtypes.MsgCancelSpotOrders{Creator: owner.Addr.String(), SpotOrderIds: ids})
 				}
 			}
 		case 7:
@@ -124,7 +134,17 @@ func (a *OrdersAgent) Step(s *Sim) {
 				if r.IntN(2) == 0 {
 					s.SendTx(owner, "orders/cancel_perp", &tradeshieldtypes.MsgCancelPerpetualOrder{OwnerAddress: owner.Addr.String(), OrderId: o.OrderId})
 				} else {
-					s.SendTx(owner, "orders/cancel_perps", &tradeshieldtypes.MsgCancelPerpetualOrders{OwnerAddress: owner.Addr.String(), OrderIds: []uint64{o.OrderId}})
+					ids := []uint64{o.OrderId}
+					for _, x := range perp {
+						if x.OwnerAddress == owner.Addr.String() && x.OrderId != o.OrderId && r.IntN(2) == 0 {
+							ids = append(ids, x.OrderId)
+						}
+					}
+					if r.IntN(4) == 0 {
+						ids = append(ids, ids[r.IntN(len(ids))])
+						s.Stats.Probe("batch_cancel_with_repeated_id_submitted")
+					}
+					s.SendTx(owner, "orders/cancel_perps", &tradeshieldtypes.MsgCancelPerpetualOrders{OwnerAddress: owner.Addr.String(), OrderIds: ids})
 				}
 			}
 		}
